@@ -100,6 +100,25 @@ pub fn run_src(toks: &[&str]) -> String {
         Some(p) => json!({"file": api_path(p), "raw": p.raw_path()}),
         None => Value::Null,
     }).collect::<Vec<_>>());
+    // what /symbolicate/v5 itself reports for the offset (the property's last sentence is about exactly these paths)
+    let symfiles: Vec<String> = {
+        let sm1 = SymbolManager::with_helper(Helper { symbol_directory: dir.clone(), log: Arc::new(Mutex::new(Vec::new())) });
+        let api1 = Api::new(&sm1);
+        let req = json!({"memoryMap": [[dn, id]], "stacks": [[[0, offset]]]});
+        let resp: Value = serde_json::from_str(&block(api1.query_api("/symbolicate/v5", &req.to_string()))).unwrap_or(Value::Null);
+        let mut v = Vec::new();
+        if let Some(fr) = resp.pointer("/results/0/stacks/0/0") {
+            if let Some(f) = fr.get("file").and_then(|x| x.as_str()) {
+                v.push(f.to_string());
+            }
+            for inl in fr.get("inlines").and_then(|x| x.as_array()).cloned().unwrap_or_default() {
+                if let Some(f) = inl.get("file").and_then(|x| x.as_str()) {
+                    v.push(f.to_string());
+                }
+            }
+        }
+        v
+    };
     let baseline: Vec<String> = log0.lock().unwrap().clone();
     // the request
     let log = Arc::new(Mutex::new(Vec::new()));
@@ -113,5 +132,5 @@ pub fn run_src(toks: &[&str]) -> String {
         Some(e) => json!({"error": e}),
         None => json!({"file": resp.get("file"), "has_source": resp.get("source").is_some()}),
     };
-    json!({"resp": resp_small, "reads": reads, "load": map.is_some(), "frames": frames_v}).to_string()
+    json!({"resp": resp_small, "reads": reads, "load": map.is_some(), "frames": frames_v, "symfiles": symfiles}).to_string()
 }
